@@ -3,6 +3,7 @@
 //! A panic is an outcome (`PANIC`), a hang is an outcome (`HANG`, after which the process
 //! exits with status 3 and the runner restarts it on the remaining cases).
 mod util;
+mod k1;
 mod k2;
 
 use std::io::{BufRead, Write};
@@ -13,6 +14,7 @@ fn run_case(line: &str) -> String {
     let toks: Vec<&str> = line.split(' ').collect();
     let r = std::panic::catch_unwind(|| match toks[0] {
         t if t.starts_with("txt_") => k2::run_txt(&toks),
+        "dec" => k1::run(&toks),
         _ => "BADCASE".to_string(),
     });
     match r {
